@@ -229,6 +229,8 @@ func profileFor(prop string) Profile {
 		p.CloudErr, p.Relist, p.AdminRelease = true, true, true
 		p.Stall = true
 		p.Ranges = true // pods with several IPs: the provider is asked once per IP, each call may fail on its own
+		// reloads, and a dropped range coming back: a record lost while its pod runs is adopted again by the pod-IP sync
+		p.Reload, p.Restore = true, true
 	case "C02":
 		p.Ops = [2]int{15, 50}
 		p.Stall = true
@@ -339,6 +341,7 @@ type World struct {
 	poolBodies                     map[string][][]byte // pool name -> bodies of earlier create-or-update requests
 	aheadNum                       int                 // of 8: how often kube-scheduler works on a pod galaxy-ipam's informer has not seen yet (per-run swarm parameter)
 	everDropped                    map[string]bool
+	cloudStale                     map[string]bool // provider assignments whose record was dropped by a configuration change (C10)
 	rebuilds                       []int // steps at which galaxy-ipam listed the stored FloatingIPs (tables rebuilt from the store)
 	memVer                         int // configuration version the tables were last known to hold (raised when a reload or a start completes)
 	inForceLB                      int                 // oldest configuration version that can still be in force (C09)
@@ -680,6 +683,13 @@ func (w *World) publishConf(cs ConfSet) {
 					w.everDropped = map[string]bool{}
 				}
 				w.everDropped[ip] = true
+				if w.cloud[ip] != "" {
+					// galaxy-ipam drops the record without a provider call: the provider's assignment is no longer tracked
+					if w.cloudStale == nil {
+						w.cloudStale = map[string]bool{}
+					}
+					w.cloudStale[ip] = true
+				}
 			}
 		}
 	}
@@ -795,11 +805,20 @@ func (w *World) handleCloud(t *core.Task, r *core.Req) core.Resp {
 	if r.Op == "cloud.assign" {
 		w.S.Stat("cloud.assign")
 		w.oracleOnCloudAssign(node, ip)
+		delete(w.cloudStale, ip)
 		w.cloud[ip] = node
+		if w.everDropped[ip] && w.M.allocs[ip] == nil {
+			// a bind that read its IP before a reload dropped the record assigns it afterwards: nothing tracks this assignment
+			if w.cloudStale == nil {
+				w.cloudStale = map[string]bool{}
+			}
+			w.cloudStale[ip] = true
+		}
 		w.cloudLog = append(w.cloudLog, fmt.Sprintf("%d assign %s %s", w.S.Steps, ip, node))
 	} else {
 		w.S.Stat("cloud.unassign")
 		w.oracleOnCloudUnassign(t, node, ip)
+		delete(w.cloudStale, ip)
 		delete(w.cloud, ip)
 		w.cloudLog = append(w.cloudLog, fmt.Sprintf("%d unassign %s %s", w.S.Steps, ip, node))
 	}
